@@ -11,13 +11,13 @@ git checkout -q -- . ; git apply --check $mdir/patch.diff || { echo "$id: patch 
 [ -d _build ] || cmake -G Ninja -S . -B _build -DCMAKE_BUILD_TYPE=RelWithDebInfo >>$log 2>&1
 cmake --build _build -- -k 0 >>$log 2>&1
 echo "== demonstration WITHOUT the change" >>$log
-( cd $mdir && timeout 900 sh ./run_demo.sh $wt/_build ) >>$log 2>&1; rc_clean=$?
+( cd $mdir && timeout 900 bash ./run_demo.sh $wt/_build ) >>$log 2>&1; rc_clean=$?
 git apply $mdir/patch.diff
 cmake --build _build -- -k 0 >>$log 2>&1
 echo "== existing test suite WITH the change" >>$log
 ctest --test-dir _build -j8 --timeout 900 >>$log 2>&1; rc_tests=$?
 echo "== demonstration WITH the change" >>$log
-( cd $mdir && timeout 900 sh ./run_demo.sh $wt/_build ) >>$log 2>&1; rc_mut=$?
+( cd $mdir && timeout 900 bash ./run_demo.sh $wt/_build ) >>$log 2>&1; rc_mut=$?
 git checkout -q -- .
 cmake --build _build -- -k 0 >>$log 2>&1
 cp $mdir/patch.diff $out/patch.diff
